@@ -678,4 +678,579 @@ theorem step_back {sort : Row → Row} (hsort : SortOk sort) {k L : Nat} (hk : 0
     simp only [heapG]
     omega
 
+/-! ## k-way: the loop -/
+
+/-- The back-tracking loop `for tuples in opposites.into_iter().rev()`. -/
+def unwindK (opp : List (List (Nat × Nat))) (q : List Nat) : Option (List Nat) :=
+  opp.foldlM copyTuples q
+
+theorem unwindK_cons (t : List (Nat × Nat)) (opp : List (List (Nat × Nat))) (q : List Nat) :
+    unwindK (t :: opp) q = (copyTuples q t).bind (unwindK opp) := by
+  simp only [unwindK, List.foldlM_cons]
+  rfl
+
+theorem combine_ne_none {sort : Row → Row} (hsort : SortOk sort) {k L : Nat} (hk : 0 < k)
+    {a b : Row} {rest : List Row} (ok : HeapOk k L (a :: b :: rest)) :
+    ∃ e t, combine sort a b = some (e, t) := by
+  obtain ⟨es, m, hc, _⟩ := combine_spec hsort hk (ok.1 a (by simp)).1 (ok.1 b (by simp)).1
+  exact ⟨_, _, hc⟩
+
+/-- The loop ends on a one-row heap and the back-tracking of what it pushed
+cannot abort. -/
+theorem loopK_safe {sort : Row → Row} (hsort : SortOk sort) {k L : Nat} (hk : 0 < k)
+    (fuel : Nat) (H : List Row) (opp : List (List (Nat × Nat)))
+    (hfuel : H.length ≤ fuel) (hne : H ≠ []) (ok : HeapOk k L H)
+    (hsafe : ∀ q, Good k L H q → unwindK opp q ≠ none) :
+    ∃ final opp', loopK sort fuel H opp = some ([final], opp') ∧ HeapOk k L [final] ∧
+      ∀ q, Good k L [final] q → unwindK opp' q ≠ none := by
+  induction fuel generalizing H opp with
+  | zero =>
+    cases H with
+    | nil => exact absurd rfl hne
+    | cons x xs => simp at hfuel
+  | succ fuel ih =>
+    match H, hne with
+    | [x], _ => exact ⟨x, opp, by simp [loopK], ok, hsafe⟩
+    | a :: b :: rest, _ =>
+      obtain ⟨e, t, hc⟩ := combine_ne_none hsort hk ok
+      obtain ⟨ok', m, hback⟩ := step_back hsort hk ok hc
+      simp only [loopK, hc]
+      apply ih
+      · rw [length_insRow]; simp only [List.length_cons] at hfuel; omega
+      · intro h
+        have := length_insRow e rest
+        rw [h] at this
+        simp at this
+      · exact ok'
+      · intro q gq
+        obtain ⟨q2, hq2, g2, _⟩ := hback q gq
+        rw [unwindK_cons, hq2, Option.bind_some]
+        exact hsafe q2 g2
+
+/-- Undoing what the loop pushed turns a bijective assignment of the final
+heap into one of the initial heap; every part's content changes by the same
+constant. -/
+theorem loopK_sound {sort : Row → Row} (hsort : SortOk sort) {k L : Nat} (hk : 0 < k)
+    (fuel : Nat) (H : List Row) (opp : List (List (Nat × Nat)))
+    (H' : List Row) (opp' : List (List (Nat × Nat))) (q0 qf : List Nat)
+    (ok : HeapOk k L H) (h : loopK sort fuel H opp = some (H', opp'))
+    (g0 : Good k L H' q0) (hun : unwindK opp' q0 = some qf) :
+    ∃ q' c, unwindK opp q' = some qf ∧ Good k L H q' ∧
+      ∀ j < k, heapG q' j H = heapG q0 j H' + c := by
+  induction fuel generalizing H opp with
+  | zero => simp [loopK] at h
+  | succ fuel ih =>
+    match H with
+    | [] =>
+      simp only [loopK, Option.some.injEq, Prod.mk.injEq] at h
+      obtain ⟨rfl, rfl⟩ := h
+      exact ⟨q0, 0, hun, g0, fun j _ => by omega⟩
+    | [x] =>
+      simp only [loopK, Option.some.injEq, Prod.mk.injEq] at h
+      obtain ⟨rfl, rfl⟩ := h
+      exact ⟨q0, 0, hun, g0, fun j _ => by omega⟩
+    | a :: b :: rest =>
+      obtain ⟨e, t, hc⟩ := combine_ne_none hsort hk ok
+      obtain ⟨ok', m, hback⟩ := step_back hsort hk ok hc
+      simp only [loopK, hc] at h
+      obtain ⟨q1, c, hun1, g1, hsum1⟩ := ih _ _ ok' h
+      obtain ⟨q2, hq2, g2, hsum2⟩ := hback q1 g1
+      rw [unwindK_cons, hq2, Option.bind_some] at hun1
+      refine ⟨q2, c + m, hun1, g2, ?_⟩
+      intro j hj
+      rw [hsum2 j hj, hsum1 j hj]
+      omega
+
+/-! ## k-way: values stay within `[0, M]` (tuple spread) -/
+
+/-- A row is descending with all values in `[0, M]`. -/
+def ValOk (M : Int) (r : Row) : Prop := Sorted r ∧ ∀ s ∈ r, 0 ≤ s.1 ∧ s.1 ≤ M
+
+theorem pairwise_zip {α β : Type} {R : α → α → Prop} {S : β → β → Prop} {l₁ : List α}
+    {l₂ : List β} (h₁ : l₁.Pairwise R) (h₂ : l₂.Pairwise S) :
+    (l₁.zip l₂).Pairwise (fun x y => R x.1 y.1 ∧ S x.2 y.2) := by
+  induction l₁ generalizing l₂ with
+  | nil => simp
+  | cons x xs ih =>
+    cases l₂ with
+    | nil => simp
+    | cons y ys =>
+      rw [List.pairwise_cons] at h₁ h₂
+      rw [List.zip_cons_cons, List.pairwise_cons]
+      refine ⟨?_, ih h₁.2 h₂.2⟩
+      intro xy hxy
+      have := List.of_mem_zip (a := xy.1) (b := xy.2) hxy
+      exact ⟨h₁.1 _ this.1, h₂.1 _ this.2⟩
+
+theorem pairwise_forall {α : Type} {R : α → α → Prop} {l : List α} (h : l.Pairwise R) :
+    ∀ x ∈ l, ∀ y ∈ l, x = y ∨ R x y ∨ R y x := by
+  induction h with
+  | nil => simp
+  | cons hx _ ih =>
+    intro x hx' y hy'
+    rcases List.mem_cons.1 hx' with hxa | hxl
+    · rcases List.mem_cons.1 hy' with hya | hyl
+      · exact Or.inl (hxa.trans hya.symm)
+      · subst hxa; exact Or.inr (Or.inl (hx y hyl))
+    · rcases List.mem_cons.1 hy' with hya | hyl
+      · subst hya; exact Or.inr (Or.inr (hx x hxl))
+      · exact ih x hxl y hyl
+
+/-- The spread of `a_i + b_{k-1-i}` is at most the larger spread of `a`, `b`;
+after subtracting the minimum all values are again in `[0, M]`. -/
+theorem combine_val {sort : Row → Row} (hsort : SortOk sort) {k : Nat} (hk : 0 < k) {M : Int}
+    {a b e : Row} {t : List (Nat × Nat)} (hla : a.length = k) (hlb : b.length = k)
+    (va : ValOk M a) (vb : ValOk M b) (hc : combine sort a b = some (e, t)) : ValOk M e := by
+  obtain ⟨es, m, hc', hperm, hsorted, hlast, hz1, hz2⟩ := combine_spec hsort hk hla hlb
+  rw [hc'] at hc
+  simp only [Option.some.injEq, Prod.mk.injEq] at hc
+  obtain ⟨he, -⟩ := hc
+  generalize hz : a.zip b.reverse = z at *
+  have hpw : z.Pairwise (fun x y => y.1.1 ≤ x.1.1 ∧ x.2.1 ≤ y.2.1) := by
+    rw [← hz]
+    exact pairwise_zip (R := fun x y : WI => y.1 ≤ x.1) (S := fun x y : WI => x.1 ≤ y.1)
+      (l₂ := b.reverse) va.1 (by rw [List.pairwise_reverse]; exact vb.1)
+  have zmem : ∀ xy ∈ z, xy.1 ∈ a ∧ xy.2 ∈ b := by
+    intro xy hxy
+    refine ⟨?_, ?_⟩
+    · have : xy.1 ∈ z.map (·.1) := List.mem_map_of_mem hxy
+      rwa [hz1] at this
+    · have : xy.2 ∈ z.map (·.2) := List.mem_map_of_mem hxy
+      rw [hz2] at this
+      exact List.mem_reverse.1 this
+  have spread : ∀ u ∈ es, ∀ v ∈ es, u.1 - v.1 ≤ M := by
+    intro u hu v hv
+    obtain ⟨x, hx, rfl⟩ := List.mem_map.1 (hperm.mem_iff.1 hu)
+    obtain ⟨y, hy, rfl⟩ := List.mem_map.1 (hperm.mem_iff.1 hv)
+    have bx1 := va.2 _ (zmem x hx).1
+    have bx2 := vb.2 _ (zmem x hx).2
+    have by1 := va.2 _ (zmem y hy).1
+    have by2 := vb.2 _ (zmem y hy).2
+    rcases pairwise_forall hpw x hx y hy with rfl | h | h
+    · simp only; omega
+    · simp only; omega
+    · simp only; omega
+  have hm : m ∈ es := by
+    obtain ⟨ys, rfl⟩ := List.getLast?_eq_some_iff.1 hlast
+    simp
+  have hmin := sorted_last_min hsorted hlast
+  rw [← he]
+  refine ⟨?_, ?_⟩
+  · unfold Sorted at hsorted ⊢
+    exact hsorted.map _ (fun x y hxy => by simp only; omega)
+  · intro s hs
+    obtain ⟨u, hu, rfl⟩ := List.mem_map.1 hs
+    have := hmin u hu
+    have := spread u hu m hm
+    simp only
+    omega
+
+theorem loopK_val {sort : Row → Row} (hsort : SortOk sort) {k L : Nat} (hk : 0 < k) {M : Int}
+    (fuel : Nat) (H : List Row) (opp : List (List (Nat × Nat)))
+    (H' : List Row) (opp' : List (List (Nat × Nat)))
+    (ok : HeapOk k L H) (hv : ∀ r ∈ H, ValOk M r)
+    (h : loopK sort fuel H opp = some (H', opp')) : ∀ r ∈ H', ValOk M r := by
+  induction fuel generalizing H opp with
+  | zero => simp [loopK] at h
+  | succ fuel ih =>
+    match H with
+    | [] =>
+      simp only [loopK, Option.some.injEq, Prod.mk.injEq] at h
+      obtain ⟨rfl, rfl⟩ := h
+      exact hv
+    | [x] =>
+      simp only [loopK, Option.some.injEq, Prod.mk.injEq] at h
+      obtain ⟨rfl, rfl⟩ := h
+      exact hv
+    | a :: b :: rest =>
+      obtain ⟨e, t, hc⟩ := combine_ne_none hsort hk ok
+      obtain ⟨ok', -⟩ := step_back hsort hk ok hc
+      simp only [loopK, hc] at h
+      apply ih _ _ ok' _ h
+      intro r hr
+      rcases List.mem_cons.1 ((perm_insRow e rest).mem_iff.1 hr) with rfl | hr
+      · exact combine_val hsort hk (ok.1 a (by simp)).1 (ok.1 b (by simp)).1
+          (hv a (by simp)) (hv b (by simp)) hc
+      · exact hv r (by simp [hr])
+
+/-! ## k-way: the initial heap -/
+
+/-- The rows before `collect::<BinaryHeap<_>>()`. -/
+def rows0 (n k : Nat) (ws : List Int) (off : Nat) : List Row :=
+  (ws.zipIdx off).map fun wi => initRow n k wi.1 wi.2
+
+theorem mem_initRow {n k : Nat} {w : Int} {id : Nat} {s : WI} (h : s ∈ initRow n k w id) :
+    ∃ p, p < k ∧ s = (if p = 0 then w else 0, n * p + id) := by
+  obtain ⟨p, hp, rfl⟩ := List.mem_map.1 h
+  exact ⟨p, List.mem_range.1 hp, rfl⟩
+
+theorem rowG_initRow (q : List Nat) (j n k : Nat) (hk : 0 < k) (w : Int) (id : Nat) :
+    rowG q j (initRow n k w id) = if asg q id = j then w else 0 := by
+  obtain ⟨k', rfl⟩ : ∃ k', k = k' + 1 := ⟨k - 1, by omega⟩
+  simp only [initRow, List.range_succ_eq_map, List.map_cons, rowG, if_true, Nat.mul_zero,
+    Nat.zero_add]
+  rw [rowG_zero]
+  · omega
+  · intro s hs
+    simp only [List.map_map, List.mem_map, Function.comp] at hs
+    obtain ⟨p, _, rfl⟩ := hs
+    simp
+
+theorem heapG_rows0 (q : List Nat) (j n k : Nat) (hk : 0 < k) (ws : List Int) (off : Nat)
+    (ids : List Nat) (hlen : ids.length = ws.length)
+    (hf : ∀ i (h : i < ids.length), asg q (off + i) = ids[i]) :
+    heapG q j (rows0 n k ws off) = load ws ids j := by
+  induction ws generalizing off ids with
+  | nil => simp [rows0, heapG, load]
+  | cons w ws ih =>
+    match ids with
+    | [] => simp at hlen
+    | i :: ids =>
+      have h0 := hf 0 (by simp)
+      simp only [Nat.add_zero, List.getElem_cons_zero] at h0
+      have := ih (off + 1) ids (by simpa using hlen) (fun t ht => by
+        have := hf (t + 1) (by simpa using ht)
+        simpa [Nat.add_assoc, Nat.add_comm 1 t] using this)
+      simp only [rows0] at this ⊢
+      rw [List.zipIdx_cons, List.map_cons, heapG, this, rowG_initRow q j n k hk, h0, load_cons]
+
+theorem heapOk_rows0 (k : Nat) (ws : List Int) : HeapOk k (k * ws.length) (rows0 ws.length k ws 0) := by
+  refine ⟨?_, ?_⟩
+  · intro r hr
+    obtain ⟨wi, hwi, rfl⟩ := List.mem_map.1 hr
+    have hid : wi.2 < ws.length := by
+      have := List.snd_lt_of_mem_zipIdx hwi
+      omega
+    refine ⟨by simp [initRow], ?_⟩
+    intro s hs
+    obtain ⟨p, hp, rfl⟩ := mem_initRow hs
+    have : ws.length * (p + 1) ≤ ws.length * k := Nat.mul_le_mul_left _ hp
+    rw [Nat.mul_succ] at this
+    rw [Nat.mul_comm k]
+    simp only
+    omega
+  · show List.Pairwise (· ≠ ·) _
+    simp only [ids]
+    rw [List.pairwise_map, List.pairwise_flatten]
+    refine ⟨?_, ?_⟩
+    · intro r hr
+      obtain ⟨wi, hwi, rfl⟩ := List.mem_map.1 hr
+      have hid : wi.2 < ws.length := by
+        have := List.snd_lt_of_mem_zipIdx hwi
+        omega
+      simp only [initRow]
+      rw [List.pairwise_map]
+      refine List.Pairwise.imp ?_ (List.pairwise_lt_range (n := k))
+      intro p p' hpp
+      have : ws.length * p < ws.length * p' := Nat.mul_lt_mul_of_pos_left hpp (by omega)
+      simp only
+      omega
+    · simp only [rows0]
+      rw [List.pairwise_map]
+      have hlt : (ws.zipIdx 0).Pairwise (fun a b => a.2 < b.2) := by
+        have : ((ws.zipIdx 0).map Prod.snd).Pairwise (· < ·) := by
+          rw [List.zipIdx_map_snd]; exact List.pairwise_lt_range'
+        exact List.pairwise_map.1 this
+      refine List.Pairwise.imp_of_mem ?_ hlt
+      intro wi wi' hwi hwi' hlt x hx y hy
+      have h1 : wi.2 < ws.length := by have := List.snd_lt_of_mem_zipIdx hwi; omega
+      have h2 : wi'.2 < ws.length := by have := List.snd_lt_of_mem_zipIdx hwi'; omega
+      obtain ⟨p, _, rfl⟩ := mem_initRow hx
+      obtain ⟨p', _, rfl⟩ := mem_initRow hy
+      simp only
+      intro heq
+      have e1 := Nat.mul_add_mod ws.length p wi.2
+      have e2 := Nat.mul_add_mod ws.length p' wi'.2
+      rw [heq, e2, Nat.mod_eq_of_lt h1, Nat.mod_eq_of_lt h2] at e1
+      omega
+
+theorem val_rows0 {M : Int} (n k : Nat) (ws : List Int) (off : Nat)
+    (hw : ∀ w ∈ ws, 0 ≤ w ∧ w ≤ M) : ∀ r ∈ rows0 n k ws off, ValOk M r := by
+  intro r hr
+  obtain ⟨wi, hwi, rfl⟩ := List.mem_map.1 hr
+  have hwm : wi.1 ∈ ws := by
+    have := List.mem_map_of_mem (f := Prod.fst) hwi
+    rwa [List.zipIdx_map_fst] at this
+  have hb := hw _ hwm
+  refine ⟨?_, ?_⟩
+  · unfold Sorted
+    simp only [initRow]
+    rw [List.pairwise_map]
+    refine List.Pairwise.imp ?_ (List.pairwise_lt_range (n := k))
+    intro p p' hpp
+    have : p' ≠ 0 := by omega
+    simp only [this, if_false]
+    split <;> omega
+  · intro s hs
+    obtain ⟨p, _, rfl⟩ := mem_initRow hs
+    simp only
+    split <;> omega
+
+/-! ## k-way: the whole function -/
+
+theorem rowG_none {q : List Nat} {j : Nat} {r : Row} (h : ∀ s ∈ r, asg q s.2 ≠ j) :
+    rowG q j r = 0 := by
+  induction r with
+  | nil => rfl
+  | cons s r ih =>
+    simp only [rowG]
+    rw [if_neg (h s (by simp)), ih (fun t ht => h t (by simp [ht]))]
+    rfl
+
+/-- When slot `i` of the row is assigned to part `n + i`, part `n + i` gets
+exactly the value of slot `i`. -/
+theorem rowG_range' (q : List Nat) (r : Row) (n : Nat)
+    (h : (r.map fun s => asg q s.2) = List.range' n r.length) :
+    ∀ i (hi : i < r.length), rowG q (n + i) r = r[i].1 := by
+  induction r generalizing n with
+  | nil => intro i hi; simp at hi
+  | cons s r ih =>
+    rw [List.map_cons, List.length_cons, List.range'_succ, List.cons.injEq] at h
+    intro i hi
+    cases i with
+    | zero =>
+      simp only [rowG, Nat.add_zero, h.1, if_true, List.getElem_cons_zero]
+      rw [rowG_none]
+      · omega
+      · intro t ht
+        have : asg q t.2 ∈ List.range' (n + 1) r.length := by
+          rw [← h.2]; exact List.mem_map_of_mem (f := fun s : WI => asg q s.2) ht
+        have := List.mem_range'_1.1 this
+        omega
+    | succ i =>
+      have := ih (n + 1) h.2 i (by simpa using hi)
+      simp only [rowG, List.getElem_cons_succ, h.1]
+      rw [if_neg (by omega), show n + (i + 1) = n + 1 + i by omega, this]
+      omega
+
+theorem kkGeneral_spec {sort : Row → Row} (hsort : SortOk sort) (p : List Nat) (ws : List Int)
+    (k : Nat) (hk : 0 < k) (hlen : ws.length = p.length) (hne : ws ≠ []) :
+    ∃ q final c, kkGeneral sort p ws k = some q ∧ q.length = p.length ∧ (∀ i ∈ q, i < k) ∧
+      final.length = k ∧ loads ws q k = final.map (fun s => s.1 + c) ∧
+      ∀ M, (∀ w ∈ ws, 0 ≤ w ∧ w ≤ M) → ValOk M final := by
+  have hn : 0 < ws.length := List.length_pos_iff.2 hne
+  have hperm0 := perm_sortRows (rows0 ws.length k ws 0)
+  have ok0 : HeapOk k (k * ws.length) (sortRows (rows0 ws.length k ws 0)) :=
+    heapOk_perm hperm0 (heapOk_rows0 k ws)
+  have hlen0 : (sortRows (rows0 ws.length k ws 0)).length = ws.length := by
+    rw [hperm0.length_eq]; simp [rows0]
+  have hne0 : sortRows (rows0 ws.length k ws 0) ≠ [] := by
+    intro h; rw [h] at hlen0; simp at hlen0; omega
+  obtain ⟨final, opp', hloop, okF, hsafeF⟩ := loopK_safe hsort hk _ _ [] (Nat.le_refl _) hne0 ok0
+    (fun q _ => by simp [unwindK])
+  obtain ⟨hlF, idF⟩ := okF.1 final (by simp)
+  have ndF : (final.map (·.2)).Nodup := by
+    have := okF.2
+    simpa [ids] using this
+  obtain ⟨q0, hq0, hl0, hmap0, -⟩ := placeFinal_spec final 0 (List.replicate (k * ws.length) 0)
+    (by simpa using idF) ndF
+  rw [List.length_replicate] at hl0
+  have good0 : Good k (k * ws.length) [final] q0 := by
+    refine ⟨hl0, ?_⟩
+    intro r hr
+    rw [List.mem_singleton.1 hr, hmap0, hlF, List.range_eq_range']
+  cases hun : unwindK opp' q0 with
+  | none => exact absurd hun (hsafeF q0 good0)
+  | some qf =>
+    obtain ⟨q', c, hun', g', hsum⟩ := loopK_sound hsort hk _ _ [] _ _ q0 qf ok0 hloop good0 hun
+    have hqq : q' = qf := by simpa [unwindK] using hun'
+    subst hqq
+    have hkn : ws.length ≤ k * ws.length := Nat.le_mul_of_pos_left _ hk
+    have hlq : (q'.take p.length).length = p.length := by
+      rw [List.length_take, g'.1]; omega
+    have hget : ∀ i (h : i < (q'.take p.length).length), asg q' (0 + i) = (q'.take p.length)[i] := by
+      intro i h
+      have : i < q'.length := by rw [g'.1]; omega
+      simp [asg, this]
+    refine ⟨q'.take p.length, final, c, ?_, hlq, ?_, hlF, ?_, ?_⟩
+    · have h1 : loopK sort (sortRows (rows0 ws.length k ws 0)).length
+          (sortRows (rows0 ws.length k ws 0)) [] = some ([final], opp') := hloop
+      have h2 : placeFinal (List.replicate (k * ws.length) 0) final = some q0 := hq0
+      have h3 : List.foldlM copyTuples q0 opp' = some q' := hun
+      simp only [kkGeneral]
+      simp only [rows0] at h1
+      rw [h1]
+      simp only [h2, h3, hlq, if_true]
+    · intro i hi
+      obtain ⟨t, ht, rfl⟩ := List.mem_iff_getElem.1 hi
+      have htn : t < ws.length := by omega
+      rw [← hget t ht, Nat.zero_add]
+      have hrow : initRow ws.length k ws[t] t ∈ sortRows (rows0 ws.length k ws 0) := by
+        rw [hperm0.mem_iff]
+        simp only [rows0]
+        exact List.mem_map_of_mem (f := fun wi : Int × Nat => initRow ws.length k wi.1 wi.2)
+          (List.mem_zipIdx_iff_getElem?.2 (by simp [htn]) : (ws[t], t) ∈ ws.zipIdx 0)
+      have hslot : ((if (0 : Nat) = 0 then ws[t] else 0, ws.length * 0 + t) : WI) ∈
+          initRow ws.length k ws[t] t :=
+        List.mem_map_of_mem (f := fun p => ((if p = 0 then ws[t] else 0, ws.length * p + t) : WI))
+          (List.mem_range.2 hk)
+      have := (g'.2 _ hrow).mem_iff.1
+        (List.mem_map_of_mem (f := fun s : WI => asg q' s.2) hslot)
+      simpa using this
+    · apply List.ext_getElem
+      · simp [loads, hlF]
+      · intro j h1 h2
+        have hj : j < k := by simpa [loads] using h1
+        have e1 : (loads ws (q'.take p.length) k)[j] = load ws (q'.take p.length) j := by
+          simp [loads]
+        have e2 := heapG_rows0 q' j ws.length k hk ws 0 (q'.take p.length) (by omega) hget
+        have e3 := heapG_perm q' j hperm0
+        have e4 := hsum j hj
+        have e5 := rowG_range' q0 final 0 (by rw [hmap0]) j (by omega)
+        rw [Nat.zero_add] at e5
+        simp only [heapG] at e4
+        rw [e1, ← e2, ← e3, e4, e5]
+        simp
+    · intro M hw
+      refine loopK_val hsort hk _ _ [] _ _ ok0 ?_ hloop final (by simp)
+      intro r hr
+      exact val_rows0 _ _ _ _ hw r (hperm0.mem_iff.1 hr)
+
+/-! ## `sortVal` meets the contract of the sort -/
+
+theorem perm_insVal (x : WI) (l : List WI) : (insVal x l).Perm (x :: l) := by
+  induction l with
+  | nil => exact List.Perm.refl _
+  | cons y ys ih =>
+    simp only [insVal]
+    split
+    · exact List.Perm.refl _
+    · exact (List.Perm.cons y ih).trans (List.Perm.swap x y ys)
+
+theorem sorted_insVal {x : WI} {l : List WI} (h : Sorted l) : Sorted (insVal x l) := by
+  induction l with
+  | nil => simp [insVal, Sorted]
+  | cons y ys ih =>
+    unfold Sorted at h ⊢
+    rw [List.pairwise_cons] at h
+    simp only [insVal]
+    split
+    · next hlt =>
+      rw [List.pairwise_cons, List.pairwise_cons]
+      refine ⟨?_, h⟩
+      intro z hz
+      rcases List.mem_cons.1 hz with rfl | hz
+      · omega
+      · have := h.1 z hz; omega
+    · next hlt =>
+      rw [List.pairwise_cons]
+      refine ⟨?_, ih h.2⟩
+      intro z hz
+      rcases List.mem_cons.1 ((perm_insVal x ys).mem_iff.1 hz) with rfl | hz
+      · omega
+      · exact h.1 z hz
+
+theorem sortVal_aux (l acc : List WI) (h : Sorted acc) :
+    (l.foldl (fun acc x => insVal x acc) acc).Perm (acc ++ l) ∧
+      Sorted (l.foldl (fun acc x => insVal x acc) acc) := by
+  induction l generalizing acc with
+  | nil => simpa using h
+  | cons x xs ih =>
+    obtain ⟨hp, hs⟩ := ih (insVal x acc) (sorted_insVal h)
+    refine ⟨hp.trans ?_, hs⟩
+    have := (perm_insVal x acc).append_right xs
+    refine this.trans ?_
+    simp only [List.cons_append]
+    exact List.perm_middle.symm
+
+theorem sortVal_ok : SortOk sortVal := by
+  intro l
+  have := sortVal_aux l [] (by simp [Sorted])
+  simpa [sortVal] using this
+
+/-! ## Two-way: the residue is at most the largest weight -/
+
+theorem mem_sortInt {y : Int} {l : List Int} : y ∈ sortInt l ↔ y ∈ l := by
+  induction l with
+  | nil => simp [sortInt]
+  | cons x xs ih => simp [sortInt, mem_insInt, ih]
+
+theorem residGo_le (M : Int) (hM : 0 ≤ M) (fuel : Nat) (l : List Int) (hs : SortedInt l)
+    (hb : ∀ x ∈ l, 0 ≤ x ∧ x ≤ M) : residGo fuel l ≤ M := by
+  induction fuel generalizing l with
+  | zero => simpa [residGo] using hM
+  | succ fuel ih =>
+    match l with
+    | [] => simpa [residGo] using hM
+    | [a] => simpa [residGo] using (hb a (by simp)).2
+    | a :: b :: rest =>
+      unfold SortedInt at hs
+      rw [List.pairwise_cons, List.pairwise_cons] at hs
+      have hba : b ≤ a := hs.1 b (by simp)
+      have ha := hb a (by simp)
+      have hb' := hb b (by simp)
+      simp only [residGo]
+      apply ih _ (sorted_insInt hs.2.2)
+      intro x hx
+      rcases mem_insInt.1 hx with rfl | hx
+      · omega
+      · exact hb x (by simp [hx])
+
+theorem residue_le (M : Int) (hM : 0 ≤ M) (ws : List Int) (hb : ∀ w ∈ ws, 0 ≤ w ∧ w ≤ M) :
+    residue ws ≤ M :=
+  residGo_le M hM _ _ (sorted_sortInt ws) (fun x hx => hb x (mem_sortInt.1 hx))
+
+/-! ## `runWith` -/
+
+theorem runWith_ok {sort : Row → Row} {p : List Nat} {ws : List Int} {k : Nat} {ids : List Nat}
+    (h : runWith sort p ws k = .ok ids) :
+    ws.length = p.length ∧
+      (((k < 2 ∨ p.length < 2) ∧ ids = p.map fun _ => 0) ∨
+       (k = 2 ∧ 2 ≤ p.length ∧ kkBipart p ws = some ids) ∨
+       (3 ≤ k ∧ 2 ≤ p.length ∧ kkGeneral sort p ws k = some ids)) := by
+  unfold runWith at h
+  split at h
+  · simp at h
+  · next hlen =>
+    refine ⟨by omega, ?_⟩
+    split at h
+    · next hc =>
+      left
+      simp only [Bool.or_eq_true, decide_eq_true_eq] at hc
+      exact ⟨hc, by simpa using h.symm⟩
+    · next hc =>
+      simp only [Bool.or_eq_true, decide_eq_true_eq, not_or, Nat.not_lt] at hc
+      right
+      split at h
+      · next hk2 =>
+        left
+        split at h
+        · next q hq =>
+          have hqq : q = ids := by simpa using h
+          exact ⟨hk2, hc.2, hqq ▸ hq⟩
+        · simp at h
+      · next hk2 =>
+        right
+        split at h
+        · next q hq =>
+          have hqq : q = ids := by simpa using h
+          exact ⟨by omega, hc.2, hqq ▸ hq⟩
+        · simp at h
+
+theorem loads_getElem? (ws : List Int) (ids : List Nat) (k j : Nat) (hj : j < k) :
+    (loads ws ids k)[j]? = some (load ws ids j) := by
+  simp [loads, hj]
+
+theorem load_map_zero_nil (p : List Nat) (j : Nat) : load [] p j = 0 := by simp [load]
+
+/-- From "loads = final tuple + constant" and the value bounds to the gap. -/
+theorem gap_of_backtrack {ws : List Int} {q : List Nat} {k : Nat} {final : Row} {c M : Int}
+    (hl : loads ws q k = final.map fun s => s.1 + c) (hlen : final.length = k)
+    (hb : ∀ s ∈ final, 0 ≤ s.1 ∧ s.1 ≤ M) :
+    ∀ j₁ < k, ∀ j₂ < k, load ws q j₁ - load ws q j₂ ≤ M := by
+  have key : ∀ j < k, ∃ s ∈ final, load ws q j = s.1 + c := by
+    intro j hj
+    have h1 := loads_getElem? ws q k j hj
+    rw [hl, List.getElem?_map] at h1
+    have hjf : j < final.length := by omega
+    rw [List.getElem?_eq_getElem hjf] at h1
+    simp only [Option.map_some, Option.some.injEq] at h1
+    exact ⟨final[j], List.getElem_mem hjf, h1.symm⟩
+  intro j₁ h₁ j₂ h₂
+  obtain ⟨s₁, hs₁, e₁⟩ := key j₁ h₁
+  obtain ⟨s₂, hs₂, e₂⟩ := key j₂ h₂
+  have := hb s₁ hs₁
+  have := hb s₂ hs₂
+  omega
+
 end Coupe.Kk
